@@ -5,6 +5,7 @@ import Shuttle.Drive.C05
 import Shuttle.Drive.C12
 import Shuttle.Drive.C13
 import Shuttle.Drive.C14
+import Shuttle.Drive.Lang
 /-! Line protocol: each input line is `(<prop> <request>)`; one output line per input line. -/
 open Shuttle
 
@@ -17,6 +18,7 @@ def dispatch (line : String) : String :=
   | some (.list [.atom "C12", req]) => Drive.C12.handle req
   | some (.list [.atom "C13", req]) => Drive.C13.handle req
   | some (.list [.atom "C14", req]) => Drive.C14.handle req
+  | some (.list [.atom "LANG", req]) => Drive.LangD.handle req
   | some _ => "bad-op"
   | none => "bad-parse"
 
